@@ -866,12 +866,16 @@ def derive_par_actions(pevents):
     evs = commute_timer(pevents[pevents.index(start) + 1:])
     i = 0
     n_sub = 0
+    pending_resubmit = None
     while i < len(evs):
         e = evs[i]
         t = e[1]
-        if e[0] in ("begin", "finish", "timer.pop", "reset", "exec.end", "cancel", "submit") and t > last_t:
+        if e[0] in ("begin", "finish", "timer.pop", "reset", "exec.end", "cancel", "submit", "refresh.fail") and t > last_t:
             acts.append(["tick", t - last_t])
             last_t = t
+        if e[0] in ("timer.pop", "exec.end") and pending_resubmit is not None:
+            acts.append(["resubmit", pending_resubmit, True])     # returned without submitting: the decision had been taken
+            pending_resubmit = None
         if e[0] == "submit" and e[2] != "thread":
             acts.append(["submit", n_sub])       # the main thread submits the initial tasks in index order
             n_sub += 1
@@ -884,23 +888,18 @@ def derive_par_actions(pevents):
             acts.append(["cancel", e[2]])
         elif e[0] == "timer.pop" and any(f[0] == "reset" and f[2] == e[2] for f in evs[i + 1:next(
                 (q for q in range(i + 1, len(evs)) if evs[q][0] in ("timer.pop", "exec.end")), len(evs))]):
-            pass    # the resumption takes effect (status change) at its `reset`, emitted there
-        elif e[0] in ("timer.pop", "reset"):
-            # look ahead: reset -> (submit by the timer thread | nothing more by it before a fatal) ; no reset: cannot resume
-            # the refresh checkpoint of this resumption failed iff a `refresh.fail` follows before the timer thread's
-            # next pop (whether the branch is submitted again is the model's business: not once the event is set)
-            idx = e[2]
-            ok = True
-            j = i + 1
-            while j < len(evs):
-                f = evs[j]
-                if f[0] == "refresh.fail":
-                    ok = False
-                    break
-                if f[0] in ("timer.pop", "exec.end") or (f[0] == "submit" and f[2] == "thread"):
-                    break
-                j += 1
-            acts.append(["timerFire", idx, bool(ok)])
+            pass    # the pop takes effect (status change) at its `reset`, emitted there
+        elif e[0] == "timer.pop":
+            acts.append(["timerFire", e[2]])          # an entry whose branch cannot resume: only erased
+        elif e[0] == "reset":
+            acts.append(["timerFire", e[2]])
+            pending_resubmit = e[2]
+        elif e[0] == "refresh.fail" and pending_resubmit is not None:
+            acts.append(["resubmit", pending_resubmit, False])
+            pending_resubmit = None
+        elif e[0] == "submit" and e[2] == "thread" and pending_resubmit is not None:
+            acts.append(["resubmit", pending_resubmit, True])
+            pending_resubmit = None
         elif e[0] == "exec.end":
             acts.append(["wake"])
             end = e
